@@ -392,6 +392,8 @@ func (r *FnResult) condFacts(cond ssa.Value, branch bool, s *State) {
 			break
 		}
 		if onlyPhisBefore {
+			r.phiDepth++ // edgeState below may come back here through another test of the same phi
+			defer func() { r.phiDepth-- }()
 			acc := topState()
 			for i, e := range phi.Edges {
 				if k, isK := e.(*ssa.Const); isK && k.Value != nil {
